@@ -794,6 +794,14 @@ func ruleR19_3(r *Run) {
 						if x.Common().IsInvoke() && nm == "Check" {
 							return true // the caller-supplied filter
 						}
+						// ... or a helper of the package that applies it (filterSkips(f, tkv, name) bool)
+						if g := x.Common().StaticCallee(); g != nil && g.Pkg == fn.Pkg && len(g.Blocks) > 0 {
+							for _, gc := range calls(g) {
+								if gc.Common().IsInvoke() && gc.Common().Method.Name() == "Check" {
+									return true
+								}
+							}
+						}
 						if nm == "Done" {
 							return true // end of stream
 						}
